@@ -3,7 +3,7 @@
     and using the cache, reproduces every file's contents, every directory, and every relative
     symlink target, and never modifies the source tree."
    This file holds only the statement, the property theorem and its non-vacuity examples. *)
-From PlzV Require Import Base.Harness Model.C34 Proof.C34.
+From PlzV Require Import Base.Harness Model.C34 Proof.C34 Proof.C34_Merge.
 
 Definition C34_statement : Prop :=
   (* RecursiveCopyOrLinkFile(from = a, to = b, mode, link, fallback) inside any directory w, for
@@ -105,3 +105,132 @@ Example C34_nonvacuous_existing :
   /\ assoc (s "src") (set (s "dst") (Dir [ (s "f", File 0 292 (s "x")) ]) w) = Some (Dir [ (s "f", File 1 420 (s "x")) ])%N
   /\ copy_top (recursive_link true) w (s "src") (s "dst") = Done (Dir [ (s "f", File 0 420 (s "x")) ])%N.
 Proof. vm_compute. repeat split. Qed.
+
+(* ------------------------------------------------------------------------------------------------
+   DESTINATIONS THAT EXIST ALREADY (an earlier output, stale files, directories in the way, an earlier
+   hard-linked copy).  `merge` (Model/C34.v) is the specification by recursion on the source tree. *)
+Definition C34_existing_statement : Prop :=
+  (* for every source tree, every configuration, every surrounding directory and WHATEVER is at the
+     destination: the walk of RecursiveCopyOrLinkFile leaves exactly `merge`, and fails exactly when
+     `merge` fails (the one differently treated root, a copied top-level symlink, excepted as before) *)
+  (forall (k : cfg) (w : world) (a b : str) (src : node),
+      assoc a w = Some src -> copied_link_root k src = false ->
+      copy_top k w a b = of_R (merge k src (assoc b w)))
+  (* WHICH ENTRIES ARE REPLACED: at every path p of the source the destination finally holds the
+     merge of the source's node at p with what was at p before *)
+  /\ (forall (k : cfg) (src : node) (d : dest) (dst : node),
+        wfb src = true -> merge k src d = ROk dst ->
+        forall p n, lookup p src = Some n ->
+        exists r, lookup p dst = Some r /\ merge k n (lookup_d p d) = ROk r)
+  (* ... which for a regular file is this table (i pm c: the source file, d: what is there) *)
+  /\ (forall (k : cfg) (i pm : N) (c : str) (d : dest),
+        merge k (File i pm c) d =
+        if link k then
+          if link_ok k && is_none d then ROk (File i pm c)
+          else if fallback k then f_rename (File 0 (eff pm) c) d else RErr
+        else f_rename (File 0 (eff (mode k)) c) d)
+  (* WHICH STALE ENTRIES SURVIVE: everything at a path the source does not have, exactly as it was *)
+  /\ (forall (k : cfg) (src : node) (d : dest) (dst : node),
+        wfb src = true -> merge k src d = ROk dst ->
+        forall p, lookup p src = None -> lookup p dst = lookup_d p d)
+  (* REPRODUCES: after a successful call every entry of the source is at the destination with the
+     same kind, equal contents, equal symlink target *)
+  /\ (forall (k : cfg) (src : node) (d : dest) (dst : node),
+        wfb src = true -> merge k src d = ROk dst -> covers src dst = true)
+  (* WHEN IT FAILS: exactly when some entry of the source meets a clash *)
+  /\ (forall (k : cfg) (src : node) (d : dest),
+        wfb src = true -> ((exists dst, merge k src d = ROk dst) <-> clash_free k src d = true))
+  (* in particular: over a destination that has an entry wherever the source has one (an earlier copy
+     of the same tree) the call fails as soon as the source holds a symlink (os.Symlink: EEXIST) *)
+  /\ (forall (k : cfg) (src d : node),
+        wfb src = true -> has_link src = true -> shadows src d = true ->
+        forall dst, merge k src (Some d) <> ROk dst).
+
+Theorem C34_existing : C34_existing_statement.
+Proof.
+  exact (conj copy_top_merge (conj (fun k src d dst Hwf Hm => merge_lookup k src Hwf d dst Hm)
+        (conj place_file_eq (conj (fun k src d dst Hwf Hm => merge_untouched k src Hwf d dst Hm)
+        (conj (fun k src d dst Hwf Hm => merge_covers k src Hwf d dst Hm)
+        (conj (fun k src d Hwf => merge_ok_iff k src Hwf d) recopy_with_symlink_fails)))))).
+Qed.
+Print Assumptions C34_existing.
+
+(* "NEVER MODIFIES THE SOURCE" where the destination already hard-links to the source's files *)
+Definition C34_hardlinked_statement : Prop :=
+  (* a destination name that is a hard link to ANY inode j (j = i: the source file's own inode) is
+     re-bound to a new inode (label 0) holding the source's contents; inode j is not written *)
+  (forall (k : cfg) (i pm : N) (c : str) (j pj : N) (cj : str),
+      place_file k i pm c (Some (File j pj cj)) =
+      if link k then (if fallback k then ROk (File 0 (eff pm) c) else RErr)
+      else ROk (File 0 (eff (mode k)) c))
+  (* the same at every depth of a tree *)
+  /\ (forall (k : cfg) (src : node) (d : dest) (dst : node) (p : path) (i pm : N) (c : str) (j pj : N) (cj : str),
+        wfb src = true -> merge k src d = ROk dst ->
+        lookup p src = Some (File i pm c) -> lookup_d p d = Some (File j pj cj) ->
+        lookup p dst = Some (File 0 (eff (if link k then pm else mode k)) c))
+  (* every regular file at the destination afterwards is a new inode, or literally a file of the source
+     (same inode, mode, contents: a hard link), or a file the destination held before, untouched *)
+  /\ (forall (k : cfg) (src : node) (d : dest) (dst : node),
+        merge k src d = ROk dst ->
+        forall f, In f (files dst) -> ino_of f = 0%N \/ In f (files src) \/ In f (files_d d))
+  (* so the world after the call is still a world of hard links: every inode that existed before has
+     one mode and one content - nothing was written through a name shared with the source *)
+  /\ (forall (k : cfg) (w : world) (a b : str) (dst : node),
+        copy_top k w a b = Done dst ->
+        consistent (files (Dir w)) -> consistent (files (Dir (set b dst w))))
+  (* and every entry but `to` is literally what it was *)
+  /\ (forall (k : cfg) (w : world) (a b : str) (dst : node),
+        copy_top k w a b = Done dst -> forall x, x <> b -> assoc x (set b dst w) = assoc x w).
+
+Theorem C34_hardlinked : C34_hardlinked_statement.
+Proof.
+  exact (conj place_over_hardlink (conj file_over_file (conj merge_files
+        (conj hardlinks_stay_consistent only_destination_written)))).
+Qed.
+Print Assumptions C34_hardlinked.
+
+(* Non-vacuity.  An earlier, DIFFERENT output at the destination: `old` survives (stale), `f` is
+   replaced, `new` is added; a directory where the source has a file is a failure; a file where the
+   source has a directory is a failure. *)
+Example C34_nonvacuous_merge :
+  let src := Dir [ (s "f", File 1 420 (s "v2")); (s "new", File 2 420 (s "n")); (s "sub", Dir [ (s "g", File 3 420 (s "g")) ]) ]%N in
+  let old := Dir [ (s "f", File 7 420 (s "v1")); (s "old", File 8 420 (s "stale")); (s "sub", Dir [ (s "h", Link (s "x")) ]) ]%N in
+  wfb src = true
+  /\ merge (recursive_copy 292) src (Some old)
+     = ROk (Dir [ (s "f", File 0 292 (s "v2")); (s "old", File 8 420 (s "stale"));
+                  (s "sub", Dir [ (s "h", Link (s "x")); (s "g", File 0 292 (s "g")) ]); (s "new", File 0 292 (s "n")) ])%N
+  /\ lookup [s "old"] src = None
+  /\ clash_free (recursive_copy 292) src (Some old) = true
+  /\ clash_free (recursive_copy 292) src (Some (Dir [ (s "f", Dir []) ])) = false
+  /\ merge (recursive_copy 292) src (Some (Dir [ (s "f", Dir []) ])) = RErr
+  /\ merge (recursive_copy 292) src (Some (Dir [ (s "sub", File 9 420 (s "in the way")) ])) = RErr
+  /\ merge (Cfg 0 true false true) src (Some old) = RErr.
+Proof. vm_compute. repeat split. Qed.
+
+(* Non-vacuity.  The destination IS an earlier hard-linked copy of the source (the same inodes 1, 2):
+   RecursiveLink again and RecursiveCopy replace every name by a new inode, the world stays
+   consistent; with a symlink in the tree the second call fails. *)
+Example C34_nonvacuous_hardlinked :
+  let src := Dir [ (s "a", File 1 420 (s "A")); (s "d", Dir [ (s "b", File 2 493 (s "B")) ]) ]%N in
+  let w := [ (s "dst", src); (s "src", src) ] in
+  let relinked := Dir [ (s "a", File 0 420 (s "A")); (s "d", Dir [ (s "b", File 0 493 (s "B")) ]) ]%N in
+  copy_top (recursive_link true) w (s "src") (s "dst") = Done relinked
+  /\ copy_top (recursive_copy 365) w (s "src") (s "dst")
+     = Done (Dir [ (s "a", File 0 365 (s "A")); (s "d", Dir [ (s "b", File 0 365 (s "B")) ]) ])%N
+  /\ assoc (s "src") (set (s "dst") relinked w) = Some src
+  /\ files (Dir w) = [ (1, 420, s "A"); (2, 493, s "B"); (1, 420, s "A"); (2, 493, s "B") ]%N
+  /\ shadows (Dir [ (s "l", Link (s "a")) ]) (Dir [ (s "l", Link (s "a")) ]) = true
+  /\ merge (recursive_link true) (Dir [ (s "l", Link (s "a")) ]) (Some (Dir [ (s "l", Link (s "a")) ])) = RErr.
+Proof. vm_compute. repeat split. Qed.
+
+Example C34_nonvacuous_consistent :
+  consistent (files (Dir [ (s "dst", Dir [ (s "a", File 1 420 (s "A")) ]); (s "src", Dir [ (s "a", File 1 420 (s "A")) ]) ]%N))
+  /\ ~ consistent (files (Dir [ (s "dst", Dir [ (s "a", File 1 420 (s "written through")) ]);
+                                (s "src", Dir [ (s "a", File 1 420 (s "A")) ]) ]%N)).
+Proof.
+  split.
+  - intros i p c p' c' _ H1 H2. cbn in H1, H2.
+    destruct H1 as [H1|[H1|[]]]; destruct H2 as [H2|[H2|[]]]; injection H1 as <- <- <-; injection H2 as <- <-; split; reflexivity.
+  - intros H. destruct (H 1%N 420%N (s "written through") 420%N (s "A")) as [_ Hc]; [discriminate | now left | right; now left |].
+    discriminate.
+Qed.
